@@ -1627,7 +1627,7 @@ def eval_case(args):
             dv = extra["derive"]
             rec["tie"] = dict(
                 fn="run_derive_flat", what="derive:" + case["path"],
-                arg="(%s, %s, %s)" % (render(dv["src"]), zll(
+                arg="((%s, %s, %s) : derive_arg)" % (render(dv["src"]), zll(
                     [dv["keep"], [int(dv["keep_trace"])], [dv["n"]]]),
                     zll(dv["extra"])),
                 impl=flat_of(cabs))
@@ -1763,7 +1763,7 @@ def eval_case(args):
                 # the copy as predicted by Model.copy_model / compress_model
                 # from the abstraction of the original
                 r["tie"] = dict(fn="run_copy_flat", what="dclab-" + tool,
-                                arg="(%s, %d)" % (
+                                arg="((%s, %d) : copy_arg)" % (
                                     render(a0), 1 if tool == "compress" else 0),
                                 impl=flat_of(a1))
                 ext0 = flat_of(a0)[0][11] == [1]
@@ -1990,7 +1990,7 @@ def evaluate(cases, scratch, procs=None):
     return [r for rs in out for r in rs]
 
 
-QUICK_FLOOR = 40
+QUICK_CASES = 60
 
 
 def run(run):
@@ -1999,32 +1999,59 @@ def run(run):
     run.count("corpus", len(cases))
     t0 = time.time()
     records = evaluate(cases, run.scratch) if cases else []
-    # quick tier: batches of generated cases (always the same sequence for a
-    # seed) until 22 s are used but never fewer than QUICK_FLOOR (40, after the 59 directed corpus cases), at most 260 cases; thorough: 800
+    # the generated cases are a function of VERIF_SEED and the tier only:
+    # QUICK_CASES (after the directed corpus cases) / 800; a time limit is
+    # only a safety net that marks the run broken, it never decides which
+    # cases exist
     total, k = 0, 0
-    target = 800 if run.thorough else 260
+    target = 800 if run.thorough else QUICK_CASES
+    limit = 1500 if run.thorough else 400
     while total < target:
         batch = []
-        for _ in range(200 if run.thorough else 30):
+        for _ in range(min(200 if run.thorough else 30, target - total)):
             batch.append(gen_case(run.rng, k))
             k += 1
         records += evaluate(batch, run.scratch)
         total += len(batch)
-        if not run.thorough and total >= QUICK_FLOOR and \
-                time.time() - t0 > 22:
+        if time.time() - t0 > limit and total < target:
+            run.broken.append(("timeout(C13)", "only %d of %d cases within "
+                               "%d s" % (total, target, limit)))
             break
     t1 = time.time()
+    if run.thorough:
+        selftest_render(run)
     feed(run, records)
     # no silent shrinking: the floor of generated cases and every write path
     # must have been reached, else the run reports a coverage shortfall
     missing = [k for k in ("writer", "append", "export", "compress", "repack",
                            "condense", "split", "join")
                if run.dist.get("path:" + k, 0) < (10 if run.thorough else 2)]
-    if total < QUICK_FLOOR or missing:
+    if total < target or missing:
         run.broken.append(("coverage(C13)", "coverage shortfall: %d generated "
                            "cases, thin write paths %s" % (total, missing)))
     run.extra["timing_s"] = dict(files_and_checker=round(t1 - t0, 1),
                                  model=round(time.time() - t1, 1))
+
+
+def selftest_render(run):
+    """Every run_*_flat interface evaluates a shard that consists only of
+    the emptiest arguments (no untyped empty list literal is rendered)."""
+    empty = dict(sc=[[] for _ in range(15)], feats=[], traces=[], unknown=[],
+                 plain=[], chnames=[], lambdas=[], powers=[], polys=[],
+                 basins=[], tree="[]")
+    r = render(empty)
+    jobs = {"run_flat_x": "((%s, 0) : copy_arg)" % r,
+            "run_copy_flat": "((%s, 1) : copy_arg)" % r,
+            "run_hyp_writer_flat": "((%s, 0) : copy_arg)" % r,
+            "run_rectify_flat": r,
+            "run_derive_flat": "((%s, %s, %s) : derive_arg)" % (
+                r, zll([[], [0], [0]]), zll([])),
+            "run_hyp_derive_flat": "((%s, %s, %s) : derive_arg)" % (
+                r, zll([]), zll([]))}
+    for fn, arg in sorted(jobs.items()):
+        common.coq_map(run.scratch, "c13self" + fn[4:9], HEADER, fn,
+                       [arg, arg])
+        run.count("selftest:" + fn)
 
 
 def feed(run, records):
@@ -2093,7 +2120,7 @@ def feed(run, records):
     pool = cf.ThreadPoolExecutor(max_workers=8)
     fut_main = pool.submit(
         common.coq_map, run.scratch, "c13", HEADER, "run_flat_x",
-        ["(%s, %d)" % (c[1], c[4]) for c in corr], 80)
+        ["((%s, %d) : copy_arg)" % (c[1], c[4]) for c in corr], 80)
 
     for case, w in writers:
         ties.append((case, dict(fn="run_rectify_flat", what="rectify_metadata",
@@ -2102,7 +2129,8 @@ def feed(run, records):
         # generator hands to the writer
         ties.append((case, dict(fn="run_hyp_writer_flat",
                                 what="hyp:complete_input",
-                                arg="(%s, %d)" % (w["abs"], w["n"]),
+                                arg="((%s, %d) : copy_arg)" % (w["abs"],
+                                                               w["n"]),
                                 impl=[[[1]]])))
     for case, t in list(ties):
         if t["fn"] == "run_derive_flat":
